@@ -207,3 +207,72 @@ REGISTRY["C04"] = dict(REGISTRY["C01"], **{
                "atom_tx_not_admissible"] + ["fault/" + n for n in ["ABORT", "THROW", "K.fail", "K.abort", "call-missing-method",
                "call-missing-contract", "ASSERT-false", "K.putFail"]],
 })
+
+_NET_COMPONENTS = {
+    "real": ["pkg/consensus.Service (event loop, payload validation, proposal checks, block assembly) + nspcc-dev/dbft v0.4.0 with its real timers on the fake clock, one per validator",
+             "pkg/core.Blockchain per node (validators and observers), mempool, native contracts, VM",
+             "pkg/network/extpool.Pool in front of OnPayload (payload witness verified against the ledger as server.go does)",
+             "pkg/network.Message encode/decode (incl. compression rule) for every consensus payload, block and transaction that crosses the transport",
+             "wallet files (NEP-6, cheap scrypt) opened by the consensus service"],
+    "stub": ["transport = harness event heap (drop, duplicate, delay, reorder, silence, lateness, corruption decided from the tape)",
+             "server.go's handlers = thin harness stub: relay of committed blocks, RequestTx answered from other nodes' pools, next missing block offered to a node that is behind, optional re-broadcast of consensus payloads",
+             "block queue = synchronous adapter (AddBlock then relay); the real bqueue.Queue is exercised by the C20 engine",
+             "crypto/rand.Reader = deterministic stream (dBFT block nonce)"],
+}
+_NET_ASSUMPTIONS = [
+    "4 validators (f=1) with the unit-test network's standby keys, 1 s block time; 7 validators (f=2) are not built",
+    "validator crash-restart is not injected: the property quantifies over silent/late validators, and dBFT without a persisted commit log does not promise safety across amnesia; observers are restarted",
+    "the bubble clock starts in 2000 while the genesis block is stamped 2016: block timestamps advance by dBFT's minimum increment; code comparing block timestamps with the wall clock is not exercised",
+    "fault decisions come from a 200-cell explicit tape followed by a splitmix64 stream seeded from the plan (tail_seed): replay is exact, shrinking works on the plan and the explicit prefix",
+]
+_NET_RULE = ("one run = 4 validators + 0-1 observers for 6-24 simulated seconds; synchronous configuration (1 run in 3: no loss, no silence, delays 1-240 ms, "
+             "duplicates and reordering allowed, 21 s) or faulty configuration (drop 0-16%, duplicate 0-15%, delays up to 20/200/900/2500 ms, up to 4 consecutive "
+             "spans in which one validator - a different one each time - is silent or 300-4000 ms late), optional payload re-broadcast, 0-16 client "
+             "transactions (the ledger generator's 16 operation kinds) each delivered to a drawn subset of nodes, observer restart. ")
+
+REGISTRY["C19"] = {
+    "engine": "ledger",
+    "level": "exploration",
+    "level_text": ("seeded search over delivery schedules and fault sequences with 4 real consensus services on 4 real ledgers; safety checked after every driver "
+                   "event (one block hash and one state root per height over all ledgers, every committed block accepted by every other ledger after the bytes "
+                   "round trip, full observation equality at the end), bounded liveness asserted only in the synchronous configuration (>= 5 blocks on every "
+                   "ledger within 20 block times; a transaction pooled by a majority is on chain within 10 block times)"),
+    "level_note": "trusted: the harness transport and the server.go stub; sampled schedules, not exhaustive; N=7 not built",
+    "design_ref": "DESIGN.md section 2, C19",
+    "technique": "deterministic simulation: real dBFT services and ledgers on a simulated transport with seeded message loss, duplication, delay, reordering and silent/late validators",
+    "budget": {"quick": 75, "thorough": 1800},
+    "chunk": 4, "shrink_s": 120, "det_runs": 8, "inflight": True,
+    "rule": _NET_RULE + "Non-trivial = at least one fault fired or a block was committed; distinct = distinct event-log hash (every committed block hash with its time and first node is logged).",
+    "probes": ["msg_dropped", "msg_duplicated", "msg_late", "dropped_by_silence", "observer_restart", "blocks_committed", "runs_with_blocks",
+               "block_accepted_from_network", "sync_block_offered", "tx_request_answered", "tx_pooled", "tx_pooled_at_majority", "pending_tx_included",
+               "log/info: changing dbft view", "log/info: sending RecoveryMessage", "log/info: received ChangeView"],
+    "components": _NET_COMPONENTS,
+    "assumptions": _NET_ASSUMPTIONS,
+}
+REGISTRY["C07"] = dict(REGISTRY["C19"], **{
+    "level_text": ("the multi-party half of C07 inside the network simulation: clients submit, through the byte-level P2P path, generated transactions that are "
+                   "valid or invalid in exactly one respect (8 defect kinds) at chain states that evolve under the run; (1) a generator-invalid transaction is "
+                   "never pooled by any node and never on chain; (2) for signature and 3-of-4 multi-signature witnesses the calculator's network fee is accepted "
+                   "by the full admission pipeline and one unit less is rejected (fresh scratch pool); (3) every block a primary proposes from its real pool, and "
+                   "a block the harness packs from a validator's pool in pool order under per-run limits at the end, is accepted by every ledger after "
+                   "encode -> bytes -> decode"),
+    "level_note": "the input-quantified half of the statement (every accepted encoding, all sizes and attribute mixes) is only sampled by the workload generator; simulation adds wire round trip, differing pools, evolving state, restarts",
+    "design_ref": "DESIGN.md section 2, C07",
+    "technique": "deterministic simulation: admission soundness, fee threshold and proposability oracles inside a simulated 4-validator network with differing mempools",
+    "rule": _NET_RULE + "C07: 4-16 client transactions, one third of them with exactly one defect; MaxTransactionsPerBlock drawn 0(default)-3. Non-trivial/distinct as for C19.",
+    "probes": ["client_tx", "tx_pooled", "tx_not_pooled", "fee_threshold_checked/signature", "fee_threshold_checked/multisig", "block_packed_from_pool", "packed_txs",
+               "tx_request_answered", "blocks_committed"] + ["defective_tx/" + d for d in ["expired", "valid-until-too-far", "already-on-chain", "bad-witness",
+               "fee-one-short", "highpriority-without-committee", "notvalidbefore-in-future", "sender-cannot-pay"]],
+})
+REGISTRY["C17"] = dict(REGISTRY["C19"], **{
+    "level_text": ("only the clause of C17 that has a wire path in it: inside the network simulation 3-18% of all messages are corrupted (bit flip, truncation, trailing "
+                   "bytes, duplicated segment, non-minimal re-encoding of a varint); Message.Decode either fails or yields a payload whose re-encoding decodes to an "
+                   "equal value with the same hash, re-encoding is a fixed point, nothing panics; for every transaction and block seen, Hash() and Size() are equal "
+                   "whether the object came from a P2P message, from inside a block body, from NewTransactionFromBytes (RPC path) or from the database after a restart"),
+    "level_note": "not decided here: round trip of every value of every serialisable type in binary and JSON, size laws, decoder limits on arbitrary byte strings - pure functions of the input, not claimed",
+    "design_ref": "DESIGN.md section 2, C17",
+    "technique": "deterministic simulation: wire corruption faults on a simulated transport, decode/re-encode fixed point and path-independence oracles",
+    "rule": _NET_RULE + "C17: corruption rate 3-18% of messages; one observer, restarted in 1 run out of 3 (database path). Non-trivial/distinct as for C19.",
+    "probes": ["wire_bitflip", "wire_truncated", "wire_trailing", "wire_duplicated_segment", "wire_nonminimal_varint", "wire_decode_rejected", "wire_reencode_checked",
+               "tx_paths_compared", "block_paths_compared", "tx_db_path_compared", "corrupted_block_rejected", "observer_restart"],
+})
